@@ -98,7 +98,7 @@ def _solve_case(case):
     evals = skipped = 0
     worst = 0.0
     mv = np.fft.fftfreq(nq, 1 / nq)
-    combos = list(itertools.product((-1.0, -2.0), NEUM, (2 * d, 2 * d + 2)))
+    combos = list(itertools.product((-1.0, -2.0), NEUM, (2 * d, 2 * d + 1, 2 * d + 2)))
     if case['tier'] == 'quick':
         combos = [x for k, x in enumerate(combos) if k % 3 == (d + nc) % 3]
     for A, (lN, uN), qdeg in combos:
